@@ -2041,8 +2041,8 @@ class Scene:
             derivs[aircraft_name] = {}
             aircraft_object = self._airplanes[aircraft_name]
 
-            # Get current aerodynamic state
-            _,_,vel_0 = aircraft_object.get_aerodynamic_state()
+            # Get current aerodynamic state (airspeed relative to the local wind)
+            _,_,vel_0 = aircraft_object.get_aerodynamic_state(v_wind=self._get_wind(aircraft_object.p_bar))
 
             # Determine current angular rates and the frame they were specified in
             omega_0 = aircraft_object.w
